@@ -41,6 +41,11 @@ RULE = ("predicates: for every predicate, size 1..6 and field (real / complex) t
         "helpers: Gaussian-integer operands (exact equality with the Lean mirror), relation residuals for float outputs. "
         "non-trivial = size >= 2 and the matrix is neither diagonal nor a multiple of the identity (predicates), "
         "at least two operands / rectangular operand with both sides > 1 (helpers); distinct = hash of the exact input. "
+        "tolerance stream (c16_tol.py): for every predicate with a tolerance (21 functions), about half of the (size 1..6, field) cells per run: a matrix built to satisfy the "
+        "predicate exactly, with one entry moved / the matrix scaled / shifted by 0, 1/16, 1/2, 2, 16, 1024 times the tolerance atol + rtol*|entry|, default tolerances and "
+        "explicit rtol / atol arguments ((1e-3,1e-6), (0,1e-7), (1e-4,0), (0,1e-6)); is_totally_positive with tol 1e-6 / 1e-4, sub_sizes None / [1] / [2], entries at -k*tol and nearly "
+        "dependent row pairs; the tolerance-level Lean mirror decides the expected boolean (cases whose verdict changes when the tolerances are scaled by 1 -+ 1e-3 are dropped and "
+        "counted as tol/borderline); argument guards (negative p/q, invalid mat_type strings, fewer than two vectors, empty matrix) are part of the mirrors. "
         "Presentation: besides the dtype drawn for a predicate's matrix (int64 / float64 / complex128 as the values allow), every ndarray handed to toqito "
         "(matrices, second matrices B, each vector / operator of a list independently, helper operands) is a re-presentation of the same values determined by the "
         "case: C / Fortran / strided / permuted-stride layout and, for list elements, second arguments and helper operands, float64 / int64 where the values "
@@ -49,7 +54,8 @@ ASSUMPTIONS = [
     "rounding an exact rational matrix to float64 moves every entry by at most 2^-53 relative, far below the margin 1e-3*(1+scale) and the library tolerances",
     "float64 arithmetic on the small (Gaussian) integer operands of the helper operations is exact (entries < 2^8, at most 3 factors, at most 36 terms)",
     "numpy.linalg.svd / eigh / cholesky / scipy null_space are accurate to 1e-8*scale on the well-conditioned small inputs generated",
-    "the exact rank behind spark, is_linearly_independent, the UPB search and the commutant nullity is the shared Gaussian elimination of Toq/Core/Rank.lean, proved equal to Mathlib's Matrix.rank (C16.rank_correct, spark_spec, spark_subsets_complete, linIndepV_yes_iff, rank_lt_cols_iff_kernel, commutantDim_eq_nullity); the other elimination-based parts that carry no certificate (exact determinants of the minors of is_totally_positive, exact inverse of the signature) are executable Lean code without a correctness theorem; they are cross-validated by construction of the inputs and by agreement with toqito",
+    "every exact oracle used is proved in Lean for all sizes: the rank behind spark, is_linearly_independent, the UPB search and the commutant nullity (C16.rank_correct, spark_spec, linIndepV_yes_iff, upb_no_iff, commutantDim_eq_finrank), the determinant of the minors of is_totally_positive and the inverse of the signature of is_pseudo_hermitian (C16.det_correct, inverse_correct, totallyPositive_yes_iff, pseudoHermitian_yes_iff), and the definiteness verdicts, which the model only gives after its own proved certificate checker accepted an LDL^H factorisation resp. a negative direction computed by the model (C16.psd_yes_sound, psd_no_sound, pd_yes_sound, pd_no_sound); the Python-side certificates are kept as an independent second confirmation",
+    "tolerance stream: the float matrix handed to toqito is sent to Lean exactly (every float is a dyadic rational); the tolerance-level mirror evaluates |a-b| <= atol + rtol*|b| exactly (C16.isclose_is_numpy / allclose_is_numpy) and a case is used only if the verdict is the same at the tolerances scaled by 1-1e-3 and 1+1e-3, which dominates the rounding inside toqito (relative 1e-16 on matrices with entries of modulus <= ~50; products of at most three 6x6 matrices); the eigenvalue test of is_positive_semidefinite is modelled as positive semidefiniteness of (lower triangle of A) + |atol| I (C16.psd_shift_iff_eigenvalues), each such verdict confirmed by a certificate",
     "mutually unbiased bases are generated exactly only in dimensions 2, 4, 6 (entries in Q[i] up to a square-root normalisation); other dimensions only get violating inputs",
 ]
 
@@ -1189,7 +1195,7 @@ def ask_pred(ctx, name, A, args, label, kind, expect=None, transformed=None, dty
     if not ok:
         ctx.violation(
             f"is_{name}: toqito says {iv}, the definition (exact decider) says {lv} on a matrix built as '{label}' [{kind}{', after ' + transformed if transformed else ''}]",
-            {"function": f"is_{name}", "args": desc, "impl": iv, "model": lv, "theorem": "eqV_yes_iff / eqV_no_imp (Toq.C16)"})
+            {"function": f"is_{name}", "args": desc, "impl": iv, "model": lv, "theorem": "<pred>_yes_iff / <pred>_yes_sound / <pred>_no_sound / eqV_no_imp / <pred>_tolerance_agrees (Toq.C16)"})
     return lv
 
 
@@ -1246,14 +1252,16 @@ def run_rectangular(ctx):
 def _vec_list(rng, V: QM, form=None, scales=None):
     """list of float vectors (1-d arrays or (d,1) columns) from the columns of V; scales[k]: divide column k by sqrt(scales[k])"""
     d, n = V.shape
-    form = form or ("1d" if rng.integers(2) else "col")
+    form = form or ["1d", "col", "mixed"][int(rng.integers(3))]
     M = V.to_np()
     out = []
+    frng = case_rng("c16/vecform", V.key())              # which vectors of a mixed list are columns: a function of the set alone
     for k in range(n):
         v = M[:, k].copy()
         if scales is not None:
             v = v / math.sqrt(float(scales[k]))
-        out.append(v if form == "1d" else v.reshape(-1, 1))
+        col = form == "col" or (form == "mixed" and bool(frng.integers(2)))
+        out.append(v.reshape(-1, 1) if col else v)
     return out, form
 
 
@@ -1527,11 +1535,11 @@ def ask_upb(ctx, dims, local, label, kind, expect=None, normalise=True):
     vl = vl0
     if iv != lv:
         ctx.violation(f"is_unextendible_product_basis: toqito says {iv}, exact search says {lv} ({label})",
-                      {"function": "is_unextendible_product_basis", "args": desc, "impl": iv, "model": lv, "theorem": "upbV (Toq.MatrixPreds)"})
+                      {"function": "is_unextendible_product_basis", "args": desc, "impl": iv, "model": lv, "theorem": "upb_no_iff / upb_order_independent / upb_surjective_search_suffices (Toq.C16)"})
     elif iv == "no":
         w = np.asarray(wit).reshape(-1)
         res_o = max(abs(np.vdot(v, w)) for v in vl) if len(w) == len(vl[0]) else 1.0
-        if len(w) != len(vl[0]) or abs(np.linalg.norm(w) - 1) > 1e-8 or res_o > 1e-8:
+        if len(w) != len(vl[0]) or not (abs(np.linalg.norm(w) - 1) <= 1e-8) or not (res_o <= 1e-8):
             ctx.violation("is_unextendible_product_basis: the returned witness is not a unit vector orthogonal to all inputs",
                           {"function": "is_unextendible_product_basis", "args": desc, "impl": str(w)[:200], "residual": float(res_o)})
     return lv
@@ -1619,7 +1627,7 @@ def ask_list_pred(ctx, name, mats, label, kind, expect=None):
     impure(ctx, guard, fn.__name__, desc)
     if iv != lv:
         ctx.violation(f"{fn.__name__} (list): toqito says {iv}, the definition says {lv} ({label})",
-                      {"function": fn.__name__, "args": desc, "impl": iv, "model": lv, "theorem": "pureV / ensembleV (Toq.MatrixPreds)"})
+                      {"function": fn.__name__, "args": desc, "impl": iv, "model": lv, "theorem": "pure_yes_sound / pure_no_sound / ensemble_yes_sound (Toq.C16)"})
     return lv
 
 
@@ -1851,9 +1859,11 @@ def check_tensor_power(ctx, n, cplx, vectors):
         viol(ctx, "tensor(A, 0) is not the 1x1 identity", "tensor", desc, str(out[1])[:100])
 
 
-def check_gram(ctx, d, n, cplx, rank=None):
+def check_gram(ctx, d, n, cplx, rank=None, V=None):
     rng = ctx.rng
-    if rank is None:
+    if V is not None:
+        V = np.asarray(V, dtype=complex if cplx else float)
+    elif rank is None:
         V = rint(rng, (d, n), cplx, 5)
     else:
         V = rint(rng, (d, rank), cplx, 3) @ rint(rng, (rank, n), cplx, 2)
@@ -1879,11 +1889,11 @@ def check_gram(ctx, d, n, cplx, rank=None):
     scale = 1 + float(np.abs(Gm).max())
     psd_rank = np.linalg.matrix_rank(Gm.astype(complex))
     ctx.count(f"ops/gram_roundtrip/{'full' if psd_rank == n else 'deficient'}/{'cplx' if cplx else 'real'}")
-    if len(ws) != n or res > 1e-8 * scale:
+    if len(ws) != n or not (res <= 1e-8 * scale):       # `not <=`: a NaN residual is a failure
         conj_res = float(np.abs(G2 - Gm.conj()).max()) if G2 is not None and G2.shape == Gm.shape else None
         viol(ctx, f"Gram round trip: vectors_to_gram_matrix(vectors_from_gram_matrix(G)) differs from G by {res:.3g} (from conj(G) by {conj_res})",
              "vectors_from_gram_matrix", {**desc, "branch": "cholesky" if psd_rank == n else "eig", "complex": cplx}, str(G2)[:300], None,
-             "gram_of_conj_rows / gram_of_rows (Toq.C16)")
+             "gram_of_conj_rows / gram_eig_branch_factor (Toq.C16)")
 
 
 def check_to_density(ctx, shape, cplx):
@@ -1939,8 +1949,40 @@ def check_majorizes_vec(ctx, a, b, form):
         viol(ctx, "majorizes differs from the partial-sum criterion", "majorizes", desc, str(out)[:200], mo, "majorizes_iff_partial_sums")
 
 
+def check_majorizes_tol(ctx, a, b, label):
+    """a, b: float lists; partial sums of a fall short of those of b by amounts around the tolerance -norm(a)*eps^(3/4) of the code"""
+    fa, fb = np.array(a, dtype=float), np.array(b, dtype=float)
+    sa = np.sort(fa)[::-1]
+    L = max(len(fa), len(fb))
+    tol_f = -float(np.linalg.norm(np.pad(sa, (0, L - len(sa)), "constant"))) * float(np.finfo(float).eps) ** (3 / 4)
+    qa, qb = [_rj(Fraction(float(x))) for x in fa], [_rj(Fraction(float(x))) for x in fb]
+    vs = [ctx.lean().ask("c16_majorizes", {"a": qa, "b": qb, "tol": _rj(Fraction(tol_f) * f)})["v"] for f in (Fraction(1, 2), 1, 2)]
+    desc = {"op": "majorizes/tol", "a": [float(x) for x in fa], "b": [float(x) for x in fb], "label": label}
+    if len(set(vs)) != 1:
+        ctx.count("ops/majorizes/tol/borderline")
+        return
+    out = _psafe(ctx, case_rng("c16/majorizes_tol", desc), desc, majorizes, fa, fb)
+    ctx.case(desc, len(a) >= 2, f"ops/majorizes/tol/{vs[1]}")
+    if out[0] != "ok" or bool(out[1]) != vs[1]:
+        viol(ctx, "majorizes differs from the partial-sum criterion with the tolerance term -norm(a)*eps^(3/4)", "majorizes", desc, str(out)[:200], vs[1], "majorizes_tol_iff (Toq.C16)")
+
+
 def run_majorizes(ctx, count):
     rng = ctx.rng
+    for _ in range(count // 5):
+        n = int(rng.integers(2, 7))
+        b = np.sort(rng.integers(1, 9, size=n).astype(float) / 4)[::-1]
+        a = b.copy()
+        # move mass upwards (a majorizes b), then remove a tiny amount from one entry: 1e-14 (inside the tolerance), 1e-9 (outside), relative to norm(a)
+        i, j = sorted(int(x) for x in rng.choice(n, size=2, replace=False))
+        a[i] += 0.25
+        a[j] -= 0.25
+        k = int(rng.integers(n))
+        dfc = float(np.linalg.norm(a)) * float(rng.choice([1e-14, 1e-13, 1e-10, 1e-9]))
+        a2 = a.copy()
+        a2[k] -= dfc
+        check_majorizes_tol(ctx, list(a2), list(b), f"deficit {dfc:.1e} at position {k}")
+        check_majorizes_tol(ctx, list(b - dfc * (np.arange(n) == k)), list(b), f"b against itself minus {dfc:.1e}")
     check_majorizes_vec(ctx, [3, 0, 0], [1, 1, 1], "intlist")
     check_majorizes_vec(ctx, [1, 1, 1], [3, 0, 0], "intlist")
     check_majorizes_vec(ctx, [2, 2], [1, 1, 1, 1], "list")          # padding of a
@@ -2000,8 +2042,17 @@ def run_norms(ctx, count):
             raise InfraError(f"known-singular-value generator is off: {sv} vs {sf}")
         prng = case_rng("c16/norms", desc)
         tn = _psafe(ctx, prng, desc, trace_norm, M)
-        if tn[0] != "ok" or abs(float(tn[1]) - float(sum(s))) > 1e-9 * scale * k:
+        if tn[0] != "ok" or not (abs(float(tn[1]) - float(sum(s))) <= 1e-9 * scale * k):
             viol(ctx, "trace_norm differs from the sum of the singular values", "trace_norm", desc, str(tn)[:100], float(sum(s)), "definition: sum of singular values")
+        # the Frobenius shortcut (k >= min(shape), p == 2) against the exact sum of squared moduli of the float matrix
+        Aq = QM.from_np(M)
+        fro2 = sum(a * a + b * b for a, b in zip(Aq.re.reshape(-1), Aq.im.reshape(-1)))
+        for kk in (k, k + 3):
+            got = _psafe(ctx, prng, desc, kp_norm, M, kk, 2)
+            ctx.count("ops/kp_norm/frobenius_exact")
+            if got[0] != "ok" or not np.isfinite(float(got[1])) or abs(Fraction(float(got[1])) ** 2 - fro2) > Fraction(1, 10 ** 12) * (1 + fro2):
+                viol(ctx, f"kp_norm(k={kk}, p=2) (Frobenius shortcut) differs from sqrt(sum |a_ij|^2)", "kp_norm", {**desc, "k": kk, "p": "2"}, str(got)[:100],
+                     float(fro2) ** 0.5, "frobenius_eq_singular_values (Toq.C16)")
         for kk in sorted(set([1, k, int(rng.integers(1, k + 1)), k + 1])):
             for p in (1, 2, 3, np.inf):
                 top = sf[:kk]
@@ -2009,7 +2060,7 @@ def run_norms(ctx, count):
                 want_svd = float(np.linalg.norm(sv[:kk], ord=p))
                 got = _psafe(ctx, prng, desc, kp_norm, M, kk, p)
                 ctx.count(f"ops/kp_norm/p={p}/{'frobenius_branch' if (kk >= k and p == 2) else 'svd_branch'}")
-                if got[0] != "ok" or abs(float(got[1]) - want) > 1e-9 * scale * k or abs(float(got[1]) - want_svd) > 1e-9 * scale * k:
+                if got[0] != "ok" or not (abs(float(got[1]) - want) <= 1e-9 * scale * k) or not (abs(float(got[1]) - want_svd) <= 1e-9 * scale * k):
                     viol(ctx, f"kp_norm(k={kk}, p={p}) differs from the p-norm of the k largest singular values", "kp_norm",
                          {**desc, "k": kk, "p": str(p)}, str(got)[:100], want, "definition: (sum_{i<k} s_i^p)^(1/p)")
         # Hermitian matrices with eigenvalues of both signs: the singular values are the moduli of the eigenvalues, sorted by modulus
@@ -2027,11 +2078,11 @@ def run_norms(ctx, count):
                 for p in (1, 2, np.inf):
                     want = float(sh[:kk].max()) if p == np.inf else float((sh[:kk] ** p).sum() ** (1.0 / p))
                     got = _psafe(ctx, prng, dh, kp_norm, H, kk, p)
-                    if got[0] != "ok" or abs(float(got[1]) - want) > 1e-9 * 8 * m:
+                    if got[0] != "ok" or not (abs(float(got[1]) - want) <= 1e-9 * 8 * m):
                         viol(ctx, f"kp_norm(k={kk}, p={p}) of a Hermitian matrix with eigenvalues of both signs differs from the p-norm of the k largest |eigenvalues|",
                              "kp_norm", {**dh, "k": kk, "p": str(p)}, str(got)[:100], want, "definition: (sum_{i<k} s_i^p)^(1/p), s = |eigenvalues| for Hermitian input")
             tnh = _psafe(ctx, prng, dh, trace_norm, H)
-            if tnh[0] != "ok" or abs(float(tnh[1]) - float(sh.sum())) > 1e-9 * 8 * m:
+            if tnh[0] != "ok" or not (abs(float(tnh[1]) - float(sh.sum())) <= 1e-9 * 8 * m):
                 viol(ctx, "trace_norm of a Hermitian indefinite matrix differs from the sum of |eigenvalues|", "trace_norm", dh, str(tnh)[:100], float(sh.sum()), "definition")
         # majorizes on matrices = majorization of singular values (only when no partial sum is a near tie)
         t = sorted([Fraction(int(x), 2) for x in rng.integers(0, 13, size=int(rng.integers(1, 7)))], reverse=True)
@@ -2127,14 +2178,14 @@ def check_commutant(ctx, gens, label):
     basis = out[1]
     scale = 1 + max(float(np.abs(a).max()) for a in arrs)
     res = max([float(np.abs(a @ X - X @ a).max()) for a in arrs for X in basis] or [0.0])
-    if res > 1e-8 * scale:
+    if not (res <= 1e-8 * scale):
         viol(ctx, f"commutant: a returned matrix does not commute with a generator (residual {res:.3g})", "commutant", desc, res, None, "commSystem_apply")
     if len(basis) != mo["dim"]:
         viol(ctx, f"commutant: {len(basis)} basis matrices, exact dimension of the commutant is {mo['dim']}", "commutant", desc, len(basis), mo,
-             "commutantDim (exact nullity over Q[i])")
+             "commutantDim_eq_finrank / commutant_nullspace_is_commutant (Toq.C16)")
     if basis:
         Bm = np.array([X.reshape(-1) for X in basis])
-        if float(np.abs(Bm.conj() @ Bm.T - np.eye(len(basis))).max()) > 1e-8:
+        if not (float(np.abs(Bm.conj() @ Bm.T - np.eye(len(basis))).max()) <= 1e-8):
             viol(ctx, "commutant: basis is not orthonormal in the Hilbert-Schmidt inner product", "commutant", desc)
 
 
@@ -2193,6 +2244,15 @@ def corpus(ctx):
     check_gram(ctx, 2, 2, True)
     check_gram(ctx, 3, 3, True)
     check_gram(ctx, 2, 3, True, rank=2)
+    # rank-deficient Gram matrices with a REPEATED eigenvalue (eigen-branch: the eigenvectors must be orthonormal; past failures,
+    # fixed in toqito commits b44bccf and 4c1ddd1):
+    # G = [[8,2,2],[2,5,-4],[2,-4,5]] (eigenvalues 9, 9, 0) and a 4x4 one with eigenvalues 80, 80, 0, 0, real and complex
+    check_gram(ctx, 2, 3, False, V=[[2, -1, 2], [2, 2, -1]])
+    check_gram(ctx, 3, 4, False, V=[[6, -2, -6, 2], [-2, 6, -2, 6], [0, 0, 0, 0]])
+    check_gram(ctx, 2, 3, True, V=[[2, -1j, -2j], [2, 2j, 1j]])
+    # rank 1 with a triple eigenvalue 0 for which np.linalg.eig returns linearly dependent eigenvectors (NaN output of the first repair b44bccf, fixed in 4c1ddd1)
+    check_gram(ctx, 3, 4, True, V=[[-4 + 4j, -4 + 4j, 4 + 4j, 2 + 2j], [-4 + 4j, -4 + 4j, 4 + 4j, 2 + 2j], [6j, 6j, 6, 3]])
+    check_gram(ctx, 4, 3, True, V=[[-4 - 6j, 1 - 5j, -5 - 1j], [-6, -3 - 3j, -3 + 3j], [4 + 4j, 4j, 4], [-2 - 4j, 1 - 3j, -3 - 1j]])
     # is_projection follows its own docstring example (oblique idempotent accepted)
     ask_pred(ctx, "projection", QM(np.array([[0, 1], [0, 1]])), {}, "docstring example [[0,1],[0,1]]", "yes", expect="yes")
     # MUB without orthonormality inside a block
@@ -2230,6 +2290,12 @@ def run(ctx, model_ok=True):
             for _ in range(reps):
                 run_mub(ctx, d)
     run_upb(ctx)
+    # --- the same predicates near their tolerances, against the tolerance-level mirrors (default and explicit rtol / atol)
+    import sys
+    from . import c16_tol
+    c16_tol.run_tolerance(ctx, sys.modules[__name__])
+    from . import c16_more
+    c16_more.run_more(ctx, sys.modules[__name__])
     # --- helper operations
     for r in range(1, 7):
         for c in range(1, 7):
@@ -2280,6 +2346,10 @@ def run(ctx, model_ok=True):
 def replay(ctx, rec):
     _matchers(ctx)
     a = rec.get("args", {}) or {}
+    import sys
+    from . import c16_tol
+    if c16_tol.replay_tol(ctx, sys.modules[__name__], a):
+        return
     if "pred" in a:
         ask_pred(ctx, a["pred"], QM.from_json(a["A"]), _args_from_desc(a.get("args", {})), a.get("label", "replay"), a.get("kind", "any"))
     elif "setpred" in a:
@@ -2297,7 +2367,7 @@ def replay(ctx, rec):
         ws = quiet(vectors_from_gram_matrix, G)
         G2 = vectors_to_gram_matrix([np.asarray(w).reshape(-1) for w in ws])
         ctx.case(a, True, "replay/gram")
-        if float(np.abs(G2 - G).max()) > 1e-8 * (1 + float(np.abs(G).max())):
+        if not (float(np.abs(G2 - G).max()) <= 1e-8 * (1 + float(np.abs(G).max()))):
             viol(ctx, "Gram round trip fails (replay)", "vectors_from_gram_matrix", a)
     elif a.get("op") == "spark":
         check_spark(ctx, QM.from_json(a["A"]), "replay")
